@@ -70,6 +70,10 @@ fn main() {
             let f = args.get(2).cloned().unwrap_or_default();
             std::process::exit(replay(&f));
         }
+        "xmldump" => {
+            let dir = args.get(2).cloned().unwrap_or_default();
+            std::process::exit(xmldump(&dir));
+        }
         "list" => {
             for c in checks() {
                 println!("{} [{}]", c.id, c.level);
@@ -440,6 +444,81 @@ fn build_evidence(
         .with("assumptions", J::Arr(check.assumptions.iter().map(|a| J::s(*a)).collect()))
         .with("wall_s", J::Num((wall * 100.0).round() / 100.0))
         .with("violations", J::Int(total_viol as i64))
+}
+
+/// Model honesty: write XML documents plus the infoset computed by the independent parser, for the
+/// expat cross-check (py/xml_xcheck.py).
+fn xmldump(dir: &str) -> i32 {
+    use e57spec::encode::{encode, Choose, Knobs};
+    struct Seq(Vec<usize>, usize);
+    impl Choose for Seq {
+        fn choose(&mut self, _l: &str, a: usize) -> usize {
+            let v = self.0.get(self.1).copied().unwrap_or(0);
+            self.1 += 1;
+            v % a
+        }
+    }
+    let _ = std::fs::remove_dir_all(dir);
+    if std::fs::create_dir_all(dir).is_err() {
+        return 2;
+    }
+    let mut docs: Vec<Vec<u8>> = Vec::new();
+    // 1. lexical variants of every scene: every single deviation and pairs of neighbouring ones
+    for si in 0..scenes::N_SCENES {
+        let sc = scenes::scene(si);
+        let k = Knobs { xml_lexical: true, proto_attrs: true, ..Knobs::NONE };
+        for dev in 0..24usize {
+            for alt in 1..5usize {
+                let mut v = vec![0usize; 26];
+                v[dev] = alt;
+                if dev % 3 == 0 {
+                    v[(dev + 5) % 24] = 1;
+                }
+                docs.push(encode(&sc, &mut Seq(v, 0), k).xml.into_bytes());
+            }
+        }
+    }
+    // 2. writer documents with the string catalogue in every field
+    let strings = cat::strings();
+    for s0 in (0..strings.len()).step_by(7) {
+        let p = c04::build_with(&strings, s0, s0 % 5);
+        let dev = dev::Dev::empty();
+        let h = dev.handle();
+        let _ = wprog::run_program(dev, &p, &wprog::ExecOpts::default());
+        let bytes = h.snapshot();
+        if let Ok(x) = e57::E57Reader::raw_xml(dev::Dev::new(bytes)) {
+            docs.push(x);
+        }
+    }
+    // 3. bundled files
+    if let Ok(rd) = std::fs::read_dir("/repo/testdata") {
+        let mut names: Vec<_> = rd.flatten().map(|e| e.path()).filter(|p| p.extension().map_or(false, |e| e == "e57")).collect();
+        names.sort();
+        for n in names {
+            if let Ok(b) = std::fs::read(&n) {
+                if let Ok(x) = e57::E57Reader::raw_xml(dev::Dev::new(b)) {
+                    docs.push(x);
+                }
+            }
+        }
+    }
+    // 4. documents both parsers must reject
+    for bad in ["<a><b></a>", "<a>]]></a>", "<p:a/>", "<a b='1' b='2'/>", "<a>&unknown;</a>", "<a><!-- -- --></a>", "<a></a><b/>", "<a b=1/>", "<a>\u{1}</a>", "<a xmlns:p='u'><p:b></p:c></a>"] {
+        docs.push(bad.as_bytes().to_vec());
+    }
+    docs.sort();
+    docs.dedup();
+    for (i, d) in docs.iter().enumerate() {
+        let info = match std::str::from_utf8(d).map_err(|e| e.to_string()).and_then(e57spec::xml::parse) {
+            Ok(doc) => e57spec::xml::infoset(&doc),
+            Err(e) => format!("ERROR {e}\n"),
+        };
+        if std::fs::write(format!("{dir}/doc_{i:05}.xml"), d).is_err() || std::fs::write(format!("{dir}/doc_{i:05}.info"), info).is_err() {
+            return 2;
+        }
+    }
+    println!("xmldump: {} documents written to {dir}", docs.len());
+    0
 }
 
 fn replay(file: &str) -> i32 {
